@@ -63,7 +63,8 @@ CHECKS = {
               "differs from the previous message of that type; snapshot = search headers overlaid by advertisement headers), proved by an "
               "invariant relating the stored header maps to the history (C04/History.v), with the ingredient theorems "
               "(header comparison exact w.r.t. the statement's volatile list tied to the generated IGNORED_HEADERS, snapshot "
-              "through the C16 refinement, at most one notification). The same executable clauses are evaluated in Coq on the "
+              "through the C16 refinement), and C04_names_sender: on every history of the domain each message yields at most "
+              "one notification, and it names the device of the message's USN and the message's own type. The same executable clauses are evaluated in Coq on the "
               "implementation's observations on every run, and the model is compared with the implementation on the same histories."),
         technique="Coq proof (invariant by induction over histories, C16 refinement for header maps) of the notification/snapshot clauses + the same clauses evaluated in Coq on implementation observations (differential correspondence)",
         design="§4 C04, §11.3",
